@@ -88,6 +88,8 @@ class ConnDesign(Elaboratable):
             for i, c in enumerate(conns):
                 self.obs += [(f"c{i}.read.run", c.read.run), (f"c{i}.write.run", c.write.run)]
             self.obs.append(("res", res))
+        elif cfg["kind"] == "simg":
+            self.elab_simg(m, cfg)
         else:
             ms = []
             for k in range(2):
@@ -114,6 +116,79 @@ class ConnDesign(Elaboratable):
                 self.obs += [("run2", t.run)]
             ts[0].simultaneous(ts[1])
         return m
+
+
+def _elab_simg(self, m, cfg):
+    """kind "simg": user-declared simultaneity beyond Connect.  shape "tt3": three transactions (chain or star declaration);
+    "alt": S0.simultaneous_alternatives(S1, S2); "mm": two user methods exchanging data in both directions, Y1 with 1-2
+    callers; "tm": a transaction simultaneous with a method that has 1-2 callers."""
+    from amaranth import Signal as Sig
+    from transactron import Method, Transaction, def_method
+    shape = cfg["shape"]
+
+    def leaf(k):
+        x = Method(name=f"X{k}")
+        xr = self.sig(f"xr{k}")
+
+        @def_method(m, x, ready=xr)
+        def _():
+            pass
+        return x
+
+    def trans(k, callee=None, **kw):
+        t = Transaction(name=f"S{k}")
+        rdy = self.sig(f"rdy{k}")
+        with t.body(m, ready=rdy):
+            r = callee(m, **kw) if callee is not None else None
+        self.obs.append((f"run{k}", t.run))
+        return t, r
+
+    if shape in ("tt3", "alt"):
+        ts = [trans(k, leaf(k))[0] for k in range(3)]
+        if shape == "alt":
+            ts[0].simultaneous_alternatives(ts[1], ts[2])
+        elif cfg.get("star"):
+            ts[0].simultaneous(ts[1], ts[2])
+        else:
+            ts[0].simultaneous(ts[1])
+            ts[1].simultaneous(ts[2])
+    elif shape == "mm":
+        ys = [Method(i=[("d", 1)], o=[("r", 1)], name=f"Y{k}") for k in range(2)]
+        a = [Sig(name=f"a{k}") for k in range(2)]
+        for k in range(2):
+            yr = self.sig(f"yr{k}")
+
+            def define(k, yr):
+                @def_method(m, ys[k], ready=yr)
+                def _(d):
+                    m.d.top_comb += a[k].eq(d)
+                    return {"r": a[1 - k]}
+            define(k, yr)
+            self.obs.append((f"Y{k}.run", ys[k].run))
+        for k in range(1 + cfg["callers"]):
+            arg = self.sig(f"arg{k}")
+            res = Sig(name=f"res{k}")
+            t = Transaction(name=f"S{k}")
+            rdy = self.sig(f"rdy{k}")
+            with t.body(m, ready=rdy):
+                m.d.top_comb += res.eq(ys[min(k, 1)](m, d=arg).r)
+            self.obs += [(f"run{k}", t.run), (f"res{k}", res)]
+        ys[0].simultaneous(ys[1])
+    else:
+        y = Method(name="Y")
+        yr = self.sig("yr0")
+
+        @def_method(m, y, ready=yr)
+        def _():
+            pass
+        self.obs.append(("Y0.run", y.run))
+        t0, _ = trans(0, leaf(0))
+        for k in range(1, 1 + cfg["callers"]):
+            trans(k, y)
+        t0.simultaneous(y)
+
+
+ConnDesign.elab_simg = _elab_simg
 
 
 class ConnH(CondH):
@@ -162,6 +237,62 @@ class ConnH(CondH):
                 self.count("nt_one_side_blocked")
             if cfg.get("third") and O["run2"] and O["run0"]:
                 V.append("simultaneous.conflict: S2 shares X0 with S0 but both run")
+            return V, ()
+        if cfg["kind"] == "simg":
+            shape = cfg["shape"]
+            if shape in ("tt3", "alt"):
+                en = [I[f"rdy{k}"] and I[f"xr{k}"] for k in range(3)]
+                r = [O[f"run{k}"] for k in range(3)]
+                for k in range(3):
+                    if r[k] and not en[k]:
+                        V.append(f"simultaneous.enabled: S{k} runs while it or its callee is not ready")
+                if shape == "tt3":
+                    if len(set(r)) != 1:
+                        V.append(f"simultaneous.together: group of three runs as {r}")
+                    self.count("nt_pair_runs" if r[0] else ("nt_one_side_blocked" if any(en) else "idle"))
+                else:
+                    if r[1] and r[2]:
+                        V.append("simultaneous.alternatives: both alternatives run in one cycle")
+                    if r[0] != (r[1] or r[2]):
+                        V.append(f"simultaneous.together: S0.run={r[0]} alternatives run {r[1:]}")
+                    self.count("nt_pair_runs" if r[0] else ("nt_one_side_blocked" if any(en) else "idle"))
+                    if en[1] and en[2] and en[0]:
+                        self.count("nt_arbitration")
+                return V, ()
+            nc = cfg["callers"]
+            if shape == "mm":
+                callers0, callers1 = [0], list(range(1, 1 + nc))
+                y0, y1 = O["Y0.run"], O["Y1.run"]
+                if y0 != y1:
+                    V.append(f"simultaneous.together: Y0.run={y0} Y1.run={y1}")
+            else:
+                callers0, callers1 = [], list(range(1, 1 + nc))
+                y0, y1 = O["run0"], O["Y0.run"]
+                if y0 != y1:
+                    V.append(f"simultaneous.together: S0.run={y0} Y.run={y1}")
+                if y0 and not (I["rdy0"] and I["xr0"]):
+                    V.append("simultaneous.enabled: S0 runs while it or its callee is not ready")
+            run1 = [k for k in callers1 if O[f"run{k}"]]
+            if len(run1) != y1:
+                V.append(f"method.run: second method runs={y1} with callers running {run1}")
+            if shape == "mm" and O["run0"] != y0:
+                V.append(f"method.run: Y0.run={y0} but its caller S0.run={O['run0']}")
+            for k in ([0] if shape == "mm" else []) + run1:
+                yr = I["yr0"] if (k == 0 or shape == "tm") else I["yr1"]
+                if O[f"run{k}"] and not (I[f"rdy{k}"] and yr):
+                    V.append(f"caller.enabled: S{k} runs while it or its method is not ready")
+            if shape == "mm" and not V and y0 and len(run1) == 1:
+                k = run1[0]
+                if O[f"res{k}"] != I["arg0"]:
+                    V.append(f"simultaneous.data: caller S{k} of Y1 got {O[f'res{k}']}, S0 passed {I['arg0']} into Y0")
+                if O["res0"] != I[f"arg{k}"]:
+                    V.append(f"simultaneous.rev_data: caller S0 of Y0 got {O['res0']}, S{k} passed {I[f'arg{k}']} into Y1")
+            if y0 and y1:
+                self.count("nt_pair_runs")
+            elif any(I[n] for n in self.input_names if n.startswith("rdy")):
+                self.count("nt_one_side_blocked")
+            if nc == 2 and I["rdy1"] and I["rdy2"]:
+                self.count("nt_arbitration")
             return V, ()
         if cfg["kind"] == "chain":
             n = cfg["n"]
@@ -242,6 +373,13 @@ def jobs(tier):
                 js.append(E1("checks.c13", "ConnH", {"kind": "chain", "n": n, "zmask": zmask, "znx": znx}, replay_cap=2))
     js.append(E1("checks.c13", "ConnH", {"kind": "sim"}, replay_cap=2))
     js.append(E1("checks.c13", "ConnH", {"kind": "sim", "third": True}, replay_cap=2))
+    # user-declared simultaneity: groups of three, alternatives, two data-exchanging methods, transaction + method
+    js.append(E1("checks.c13", "ConnH", {"kind": "simg", "shape": "tt3"}, replay_cap=2))
+    js.append(E1("checks.c13", "ConnH", {"kind": "simg", "shape": "tt3", "star": True}, replay_cap=2))
+    js.append(E1("checks.c13", "ConnH", {"kind": "simg", "shape": "alt"}, replay_cap=2))
+    for callers in (1, 2):
+        js.append(E1("checks.c13", "ConnH", {"kind": "simg", "shape": "mm", "callers": callers}, replay_cap=2))
+        js.append(E1("checks.c13", "ConnH", {"kind": "simg", "shape": "tm", "callers": callers}, replay_cap=2))
     return js
 
 
@@ -253,5 +391,5 @@ def run(rep, tier):
                 "where only one side could run, where several callers compete")
     rep.assumptions = ["pysim semantics", "1-bit payloads"]
     rep.add_e1(run_jobs(jobs(tier), chunksize=4))
-    rep.per_config = rep.per_config[:40]
+    rep.per_config = rep.per_config[:30] + rep.per_config[-10:]
     return {"states": 50, "transitions": 5000, "nt_pair_runs": 1000, "nt_one_side_blocked": 1000, "nt_arbitration": 500}
